@@ -99,6 +99,32 @@ pub fn dump_and_check(args: &Args) -> i32 {
             frontier = next;
         }
     }
+    // 2c. char_class.rs against the meaning the model gives each class (std predicates, the punctuation list read by
+    //     the translator, the language's own consonant / vowel table), for every scalar and every language
+    let mut cc_bad: Vec<String> = vec![];
+    let mut suspects: Vec<u32> = vec![];
+    let mut cc_checked = 0usize;
+    let punct_list: Option<Vec<u32>> = if args.punct.is_empty() { None } else { Some(args.punct.split(',').filter_map(|x| x.parse().ok()).collect()) };
+    for code in crate::real::LANGS.iter() {
+        let lg = crate::real::make_lang(code);
+        for cp in 0..=0x10FFFFu32 {
+            let c = match std::char::from_u32(cp) { Some(c) => c, None => continue };
+            let tbl = lg.get_char_class(c);
+            let mut want: Vec<(CharClass, Option<bool>)> = vec![
+                (CharClass::Any, Some(true)), (CharClass::Control, Some(c.is_control())), (CharClass::Whitespace, Some(c.is_whitespace())),
+                (CharClass::NotAlpha, Some(!c.is_alphabetic())), (CharClass::NotAlphaNum, Some(!c.is_alphanumeric())),
+                (CharClass::Consonant, tbl.map(|k| k == CharClass::Consonant)), (CharClass::Vowel, tbl.map(|k| k == CharClass::Vowel))];
+            if let Some(pl) = &punct_list { want.push((CharClass::Punctuation, Some(pl.contains(&cp)))); }
+            for (k, w) in want {
+                cc_checked += 1;
+                let got = k.matches(c, &lg);
+                if got != w {
+                    if cc_bad.len() < 20 { cc_bad.push(format!("{:?}.matches(U+{:04X}) [{}] = {:?}, model meaning {:?}", k, cp, code, got, w)); }
+                    if suspects.len() < 40 && !suspects.contains(&cp) { suspects.push(cp); }
+                }
+            }
+        }
+    }
     // 3. float facts
     let consts = parse_consts(&args.consts);
     let mut float_bad: Vec<String> = vec![];
@@ -130,12 +156,13 @@ pub fn dump_and_check(args: &Args) -> i32 {
         }
     }
     float_bad.truncate(20);
-    let ok = bad.is_empty() && float_bad.is_empty() && consts.is_some() && stem_bad.is_empty();
+    let ok = bad.is_empty() && float_bad.is_empty() && consts.is_some() && stem_bad.is_empty() && cc_bad.is_empty();
     let mut j = String::from("{");
     let _ = write!(j, "\"ok\":{},\"scalars\":{},\"unicode_fact_violations\":{},\"unicode_bad\":[{}],", ok, scalars, bad.len(),
         bad.iter().take(20).map(|s| json_str(s)).collect::<Vec<_>>().join(","));
     let _ = write!(j, "\"stem_words_checked\":{},\"stem_max_len\":{},\"stem_bad\":[{}],", stem_checked, maxlen, stem_bad.iter().map(|s| json_str(s)).collect::<Vec<_>>().join(","));
     let _ = write!(j, "\"titlecase_like\":{},\"case_closed_checked\":{},", titlecase_like, case_closed_checked);
+    let _ = write!(j, "\"char_class_checked\":{},\"char_class_bad\":[{}],\"suspects\":[{}],", cc_checked, cc_bad.iter().map(|s| json_str(s)).collect::<Vec<_>>().join(","), suspects.iter().map(|x| x.to_string()).collect::<Vec<_>>().join(","));
     let _ = write!(j, "\"unlowerable_uppercase\":{},\"unlowerable_digest\":\"{:016x}\",", unlowerable.len(), { let mut h = 0xcbf29ce484222325u64; for c in &unlowerable { fnv1a(&mut h, &c.to_string()); } h });
     let _ = write!(j, "\"float_evaluations\":{},\"float_max_len\":{},\"float_bad\":[{}]}}", float_evals, n, float_bad.iter().map(|s| json_str(s)).collect::<Vec<_>>().join(","));
     let _ = std::fs::write(&args.out, &j);
